@@ -40,8 +40,9 @@ import hmac
 import z3
 
 from pyvc.api import *
+from pyvc.speclib import forall, exists, implies, char_at, take, drop, matches
 from pyvc.values import *
-from pyvc.ops import exc, mk_int, iterm, unlift
+from pyvc.ops import exc, mk_int, iterm, unlift, as_int_term
 from pyvc.segs import VSegs, segs_of, to_vbytes, total_len
 
 from coincurve import PrivateKey as cPrivateKey, PublicKey as cPublicKey
@@ -1289,6 +1290,163 @@ def _b58_samples():
             out.append(b'\x00' * lead + body)
             out.append(b'\x00' * lead + body[:-1] + b'\x00')
     return out
+
+
+# ---- the Base58 numeral DECODER against its spec function, for strings of every length (loop invariants, no bound)
+
+from lbry.crypto import util as _crypto_util
+_INT_TO_BYTES = _crypto_util.int_to_bytes
+I2B = z3.Function('int_to_bytes', z3.IntSort(), _S)      # minimal big-endian byte string of a non-negative integer
+
+
+def spec_int_to_bytes(n):
+    """minimal big-endian byte string of n >= 0 (empty for 0)"""
+    return n.to_bytes((n.bit_length() + 7) // 8, 'big')
+
+
+def _m_i2b(interp, st, args, kwargs):
+    interp.builtins_used.add("int_to_bytes [modular contract: minimal big-endian bytes; checked bounded in base58.numeral]")
+    v = args[0]
+    if isinstance(v, VInt) and v.concrete:
+        yield st, VBytes(spec_int_to_bytes(v.v))
+        return
+    yield st, VBytes(I2B(as_int_term(v)))
+
+
+B58_DIGIT = {B58_ALPHABET[i]: i for i in range(58)}       # digit values of the Bitcoin alphabet (spec side)
+
+
+@rec_spec(result=TInt())
+def b58_value(s, k):
+    """Horner value of the first k characters of s read as base-58 digits (Bitcoin alphabet); a character outside the
+    alphabet counts as -1 here and is excluded by all_b58 wherever the value is used"""
+    if k <= 0:
+        return 0
+    return b58_value(s, k - 1) * 58 + B58_DIGIT.get(char_at(s, k - 1), -1)
+
+
+def all_b58(s, k):
+    return forall(0, k, lambda j: B58_DIGIT.get(char_at(s, j), -1) >= 0)
+
+
+def leading_ones(s, k):
+    return forall(0, k, lambda j: char_at(s, j) == '1')
+
+
+@invariant(_B58_DECODE, loop=1)
+def _b58_decode_inv1(_i, txt, value):
+    return value == b58_value(txt, _i) and all_b58(txt, _i)
+
+
+@invariant(_B58_DECODE, loop=2)
+def _b58_decode_inv2(_i, txt, count):
+    return count == _i and leading_ones(txt, _i)
+
+
+@proof("C06", "base58.decode.all-lengths")
+class Base58DecodeLoops:
+    """The REAL Base58.decode body (not its modular contract) for a string of ANY length: it returns
+    one zero byte per leading '1' followed by the minimal big-endian bytes of the Horner value of the digits, and raises
+    Base58Error exactly when the string is empty or has a character outside the alphabet. Loop invariants:
+    value == b58_value(txt, i); count == i and txt[:i] is all '1'. int_to_bytes enters by its contract."""
+    inputs = dict(txt=TStr())
+    models = {_B58_DECODE: None, _INT_TO_BYTES: _m_i2b, spec_int_to_bytes: _m_i2b}
+    note = "Base58 strings of length 1..60 with 0..3 leading '1', digit boundaries, and 15 strings outside the alphabet"
+
+    def requires(txt):
+        # a string of '1' only has value 0, where int_to_bytes(0) is one zero byte rather than none (remark R6 in DESIGN.md)
+        return len(txt) == 0 or not leading_ones(txt, len(txt))
+
+    def run(txt):
+        return Base58.decode(txt)
+
+    def ensures_is_spec(txt, result):
+        return exists(0, len(txt) + 1, lambda c: leading_ones(txt, c) and char_at(txt, c) != '1'
+                      and result == b'\x00' * c + spec_int_to_bytes(b58_value(txt, len(txt))))
+
+    def ensures_only_for_numerals(txt):
+        return len(txt) > 0 and all_b58(txt, len(txt))
+
+    def _refused(txt):
+        return len(txt) == 0 or not all_b58(txt, len(txt))
+    raises = {Base58Error: _refused}
+
+    def samples():
+        for b in _b58_samples():
+            yield dict(txt=spec_b58encode(b))
+        for txt in ('', '0', 'O', 'I', 'l', '1O', 'abc0', 'l1', ' 2', '2 ', '2\n', '-2', '+', 'é', '１', '2', 'z', '1z', '12', '21'):
+            yield dict(txt=txt)
+
+
+# ---- the Base58 numeral ENCODER against its spec function, for byte strings of every length
+
+_BYTES_TO_INT = _crypto_util.bytes_to_int
+B2I = z3.Function('bytes_to_int', _S, z3.IntSort())      # big-endian value of a byte string
+
+
+def spec_bytes_to_int(b):
+    return int.from_bytes(bytes(b), 'big')
+
+
+def _m_b2i(interp, st, args, kwargs):
+    interp.builtins_used.add("bytes_to_int [modular contract: big-endian value >= 0; checked bounded in base58.numeral]")
+    v = args[0]
+    if v.concrete:
+        yield st, VInt(spec_bytes_to_int(unlift(v)))
+        return
+    t = B2I(_flat(v))
+    if interp.spec_depth == 0:
+        st.assume(t >= 0)
+    yield st, VInt(t)
+
+
+@rec_spec(result=TStr())
+def b58_le(n):
+    """base-58 digits of n, least significant first (empty for 0)"""
+    if n <= 0:
+        return ''
+    return char_at(B58_ALPHABET, n % 58) + b58_le(n // 58)
+
+
+@invariant(_B58_ENCODE, loop=1)
+def _b58_encode_inv1(value, txt, old_value):
+    return value >= 0 and b58_le(old_value) == txt + b58_le(value)
+
+
+@invariant(_B58_ENCODE, loop=2)
+def _b58_encode_inv2(_i, be_bytes, txt, old_txt):
+    return (len(txt) == len(old_txt) + _i and txt.startswith(old_txt) and matches(drop(txt, len(old_txt)), '1*')
+            and matches(take(be_bytes, _i), '\\x00*'))
+
+
+@proof("C06", "base58.encode.all-lengths")
+class Base58EncodeLoops:
+    """The REAL Base58.encode body (not its modular contract) for a byte string of ANY length: read backwards
+    the result is the base-58 digits of the big-endian value, least significant first, followed by exactly one '1' per
+    leading zero byte. Loop invariants: digits(value0) == txt + digits(value); txt == txt0 + '1' * i and b[:i] all zero.
+    bytes_to_int enters by its contract; s[::-1] is string reversal (engine axioms: involution, length)."""
+    inputs = dict(b=TBytes())
+    models = {_B58_ENCODE: None, _BYTES_TO_INT: _m_b2i, spec_bytes_to_int: _m_b2i}
+    note = "104 byte strings (lengths 1..256, leading zero bytes before bytes below and above 0x80) and all-zero strings"
+
+    def requires(b):
+        # bytes_to_int(b'') raises ValueError (int(b'', 16)); every call site passes payload + 4 checksum bytes
+        return len(b) >= 1
+
+    def run(b):
+        return Base58.encode(b)
+
+    def ensures_is_spec(b, result):
+        return exists(0, len(b) + 1, lambda c: matches(take(b, c), '\\x00*') and char_at(b, c) != b'\\x00'
+                      and len(result) == len(b58_le(spec_bytes_to_int(b))) + c
+                      and result[::-1].startswith(b58_le(spec_bytes_to_int(b)))
+                      and matches(drop(result[::-1], len(result) - c), '1*'))
+
+    def samples():
+        for b in _b58_samples():
+            yield dict(b=b)
+        for b in (b'\x00', b'\x00\x00', b'\x00\x80', b'\x00\x00\xff\x01\x02', b'\x00\x7f', b'\x80', b'\x00\x00\x00\x80\x00'):
+            yield dict(b=b)
 
 
 @proof("C06", "base58.numeral")
